@@ -343,7 +343,7 @@ def check(h, reason):
         shipped = {e["cls"] for e in elems if not e["sim"] and e.get("service")}
         for e in errors:
             m = re.search(r"AttributeError: '(\w+)' object has no attribute", e.get("exc_text") or "")
-            if m and m.group(1) in shipped:
+            if m and m.group(1) in shipped and ":run" in (e.get("exc_text") or ""):  # raised inside the service's run()
                 early = {"cls": m.group(1)}
                 V("C13/service-run-before-init/%s" % m.group(1), "run() of the configured shipped service %s was started by the accept loop before its __init__ had finished (%s); the daemon went down at start-up" % (m.group(1), (e.get("exc_text") or "")[:160]))
                 return v, shape, True
